@@ -8,21 +8,21 @@ Local Open Scope Z_scope.
 (* ---- ADD SUB MUL ------------------------------------------------------------------ *)
 Lemma opAdd_ok : comp_correct globals body_opAdd (F2 spec_add).
 Proof.
-  start2. unfold body_opAdd. run_sym. finish; rewrite land_mask_wrap.
+  start2. unfold body_opAdd. run_sym. finish; rewrite ?land_mask_wrap.
   - apply wrap256_range.
-  - reflexivity.
+  - first [reflexivity | unfold spec_add; f_equal; lia].
 Qed.
 Lemma opSub_ok : comp_correct globals body_opSub (F2 spec_sub).
 Proof.
-  start2. unfold body_opSub. run_sym. finish; rewrite land_mask_wrap.
+  start2. unfold body_opSub. run_sym. finish; rewrite ?land_mask_wrap.
   - apply wrap256_range.
-  - reflexivity.
+  - first [reflexivity | unfold spec_sub; f_equal; lia].
 Qed.
 Lemma opMul_ok : comp_correct globals body_opMul (F2 spec_mul).
 Proof.
-  start2. unfold body_opMul. run_sym. finish; rewrite land_mask_wrap.
+  start2. unfold body_opMul. run_sym. finish; rewrite ?land_mask_wrap.
   - apply wrap256_range.
-  - reflexivity.
+  - first [reflexivity | unfold spec_mul; f_equal; lia].
 Qed.
 Lemma opDiv_ok : comp_correct globals body_opDiv (F2 spec_div).
 Proof.
